@@ -53,6 +53,13 @@ PROPERTIES = {
               'Partial: recursive variants (Code, annotations, Record, Module, StackMapTable, MethodParameters ...), _len/_read and the read side are not under contract.',
         note='Trusted: Verus+Z3; rustc -Zunpretty=expanded as the source of the verified text; arm lifting; sink model vw_write (Vec<u8> write_all appends big-endian bytes, never fails); vectors fit their count field.',
         out=['recursive attribute variants using this._len()', 'AttributeInfo::_read / _len, ClassFile::read (pool with long/double)', 'CpInfo, FieldInfo, MethodInfo writers']),
+    'C09': dict(
+        level='proof', verus=[], kani=['merge'],
+        technique=KANI_COMPLETE,
+        claim='Complete (loop-free, full-domain) Kani proofs on the real quill crate: merge_names places A\'s name in column a and B\'s in column b, absent where the side lacks the entry, refuses differing first names, and projects back to both inputs; '
+              'merge_equal and merge_javadoc(_ab) are equality-or-error / present-iff-either. Partial: the key-union zip over IndexMap (zip_map_combination) and merge_namespaces are not under contract.',
+        note='Trusted: Kani 0.68/CBMC; anyhow shim; merge_names instantiated at &JavaStr names from a 3-entry menu (the function only clones, compares and tests emptiness); Javadoc/T = u8.',
+        out=['quill/src/action/diff_mappings.rs zip_map_combination (IndexMap)', 'merge_namespaces', 'Mappings::merge traversal']),
     'C16': dict(
         level='proof', verus=['rlabels', 'cwrite', 'wjump', 'rskip', 'rbranch', 'adiff', 'scope', 'c20len'], kani=[],
         technique=VERUS_TECH + ': implicit safety obligations (overflow, index, unwrap, unreachable, termination)',
@@ -79,7 +86,6 @@ NOT_APPLICABLE = {
     'C15': 'code lives in the binary crate (tokio/reqwest/zip dependency closure not compilable by Kani), predicates over IndexMap/IndexSet graphs',
     # not yet built in this session (moved to claimed checks as they are built):
     'C06': 'not yet built (planned: bounded Kani map_desc)',
-    'C09': 'not yet built (planned: Kani-complete merge_names)',
     'C11': 'not yet built (planned: bounded Kani inner class split/join)',
     'C13': 'not yet built (planned: bounded Kani merge_preserve_order)',
     'C18': 'not yet built (planned: bounded Kani descriptor grammar)',
